@@ -113,10 +113,10 @@ class BooleanHamiltonianGate(raw_types.Gate):
     The gate is specified by a list of parameters, $[x_0, x_1, \dots, x_{n-1}]$, a
     list of boolean expressions that are functions of these parameters,
     $[f_0(x_0,\dots,x_{n-1}), f_1(x_0,\dots,x_{n-1}), \dots f_{p-1}(x_0,\dots,x_{n-1})]$
-    and an angle $t$. For these parameters the gate is
+    and an angle $t$. For these parameters the gate is, up to a global phase,
 
     $$
-    \sum_{x=0}^{2^n-1} e^{i \frac{t}{2} \sum_{k=0}^{p-1}f_k(x_0,\dots,x_{n-1})} |x\rangle\langle x|
+    \sum_{x=0}^{2^n-1} e^{-i \frac{t}{2} \sum_{k=0}^{p-1}f_k(x_0,\dots,x_{n-1})} |x\rangle\langle x|
     $$
     """
 
@@ -133,8 +133,8 @@ class BooleanHamiltonianGate(raw_types.Gate):
         Boolean expression would be true iff the vertices on that are in different cuts (i.e. it's)
         an XOR.
 
-        Then, we compute exp(-j * theta * polynomial), which is unitary because the polynomial is
-        Hermitian.
+        Then, we compute exp(-j * theta / 2 * polynomial) up to a global phase (the constant term of
+        the polynomial is dropped), which is unitary because the polynomial is Hermitian.
 
         Args:
             parameter_names: The names of the inputs to the expressions.
